@@ -74,7 +74,8 @@ def algorithm_models(chk):
     return fixed, pinned
 
 
-INPUT_SCENARIO = {"unix_connect": "unix_connect_long_path", "unix_bind": "unix_bind_long_path"}
+INPUT_SCENARIO = {"unix_connect": "unix_connect_long_path", "unix_bind": "unix_bind_long_path",
+                  "unix_try_connect": "unix_try_connect_long_path"}
 
 
 def conformance(fixed, dry, results):
